@@ -402,7 +402,6 @@ theorem ite_noTx {c : Ctx} {p : Prop} [Decidable p] {a b : Res} (ha : NoTx c a) 
     NoTx c (if p then a else b) := by
   split <;> assumption
 
-theorem markRx_p (s : Station) (now : Int) : (markRx s now).p = s.p := rfl
 
 theorem backUse_txok (now : Int) (c c0 : Ctx) (d : UseData) (hk : Keeps c c0) :
     TxOk now c (((tr c0 (fun s => toUseToken s d) "transition_use_token").bind fun c =>
